@@ -698,9 +698,9 @@ func init() {
 	core.Register(&core.Property{
 		ID:    "C09",
 		Level: "exploration",
-		Rule: "case = seeded interleaving (lock-step) of unconfirmed deliveries (spends of wallet coins, payments to the wallet incl. staking/binding deposits, children of pending transactions, duplicates) with block connects that confirm some pending transactions and double-spend others, and reorganisations (depth 1-3) that un-confirm, re-mine, drop or double-spend them. " +
+		Rule: "case = seeded interleaving (lock-step) of unconfirmed deliveries (spends of wallet coins, payments to the wallet incl. staking/binding deposits, children of pending transactions, duplicates, second pending spenders of a wallet coin) with block connects that confirm some pending transactions and double-spend others, and reorganisations (depth 1-3) that un-confirm, re-mine, drop or double-spend them. " +
 			"After every step: ledger equality (pending outputs not confirmed, confirmed ones applied once), raw pending bucket == model set and every record decodes to its transaction, raw pending-credit bucket == wallet-paying outputs of the model set, GetUtxo spent_by_unmined == (coin is input of a model-pending transaction), " +
-			"AutoCreateRawTransaction never selects such a coin, pending staking/binding history entries == pending deposits. distinct_nontrivial = distinct op shapes of cases in which some transaction experienced ≥2 of {confirm, conflict, rollback}",
+			"AutoCreateRawTransaction never selects such a coin, pending staking/binding history entries == pending deposits, a mined unspent deposit is shown as being withdrawn exactly while a model-pending transaction spends it. distinct_nontrivial = distinct op shapes of cases in which some transaction experienced ≥2 of {confirm, conflict, rollback}",
 		Assumptions: []string{"conflicts and dead parents are decisive only for wallet-owned coins (the generator never conflicts a pending transaction on a stranger's coin)", "the node never delivers two mutually conflicting unconfirmed transactions", "unconfirmed transactions are delivered only while the wallet is at the node's tip"},
 		Cases:       func(tier string, seed int64) int { return plans[tier].cases },
 		Run:         func(t *core.T) { c09Case(t, plans[t.Tier].steps) },
